@@ -234,6 +234,13 @@ def impl_eval(line: str) -> str:
         if op == "pfu":
             r = D.periods_from_until(parse_endpoint(ws[1]), parse_endpoint(ws[2]), int(ws[3]))
             return "[" + ",".join(show_period(p) for p in r) + "]"
+        if op == "dir":
+            sp = ir.Span(parse_endpoint(ws[1]), parse_endpoint(ws[2]), int(ws[3]))
+            before = observe(sp)
+            rv = sp.reversed()
+            if observe(sp) != before or rv is sp:
+                return "reversed() changed the span it was called on"
+            return f"{sp.direction} {rv.direction}"
         if op in ("sfs", "sfl"):
             fn = D.spans_from_short_span if op == "sfs" else D.spans_from_long_span
             short, long_ = fn(frame_iterable(parse_endpoint(ws[1]), parse_endpoint(ws[2])), int(ws[3]), int(ws[4]))
@@ -473,6 +480,13 @@ def gen_span_lines(ctx: Ctx):
         d, lag, lead = rng.randint(0, 12), rng.randint(-6, 3), rng.randint(-3, 6)
         lines.append(f"{rng.choice(['sfs', 'sfl'])} {f}:{a0} {f}:{a0 + d} {lag} {lead}")
         lines.append(f"ext {f}:{a0} {f}:{a0 + d} {rng.randint(-6, 3)} {rng.randint(-3, 6)} {rng.randint(0, 1)} {rng.randint(0, 1)}")
+    for f in ("Y", "Q", "M", "I", "D"):
+        for d in range(-4, 5):
+            for st in (-3, -1, 1, 2):
+                lines.append(f"dir {f}:{base[f]} {f}:{base[f] + d} {st}")
+        for st in (-2, -1, 1, 3):
+            lines += [f"dir - {f}:{base[f]} {st}", f"dir {f}:{base[f]} - {st}", f"dir - - {st}", f"dir cs:1 ce:-1 {st}"]
+    lines.append("dir Q:1 M:5 1")
     lines.append("sfs Q:1 M:5 -1 1")
     lines.append("sfl Q:1 M:5 -1 1")
     ctx.count("frame_lines", len(lines) - k)
@@ -716,6 +730,33 @@ def frame_iterable(a, b):
     return (a, b)
 
 
+def oracle_direction(ctx: Ctx, line, ws):
+    """direction is "forward" exactly for a positive step, reversed() flips it, and a resolved span with two or more
+    periods is enumerated upwards exactly when it is forward"""
+    a, b, st = parse_endpoint(ws[1]), parse_endpoint(ws[2]), int(ws[3])
+    if st == 0 or (a is not None and b is not None and type(a) is not type(b)):
+        return
+    ctx.evaluations += 1
+    try:
+        sp = ir.Span(a, b, st)
+        want = "forward" if st > 0 else "backward"
+        flip = "backward" if st > 0 else "forward"
+        if sp.direction != want or sp.reversed().direction != flip:
+            ctx.fail("span-direction", {"line": line}, f"direction {sp.direction!r}, reversed {sp.reversed().direction!r}; expected {want!r}, {flip!r}")
+            return
+        if a is not None and b is not None and not isinstance(a, D.ContextualPeriod) and not isinstance(b, D.ContextualPeriod):
+            ser = [p.serial for p in sp]
+            if len(ser) >= 2:
+                up = all(x < y for x, y in zip(ser, ser[1:]))
+                down = all(x > y for x, y in zip(ser, ser[1:]))
+                if (want == "forward" and not up) or (want == "backward" and not down):
+                    ctx.fail("span-direction", {"line": line}, f"a {want} span enumerates {ser[:6]}")
+                    return
+                ctx.nontriv(("dir", st > 0, len(ser) > 2))
+    except Exception as e:
+        ctx.fail("span-direction", {"line": line}, f"{e!r}")
+
+
 def oracle_frames(ctx: Ctx, line, ws):
     """spans_from_short_span / spans_from_long_span: the short span is first..last, the long span is the short one moved
     by (max_lag, max_lead) at its two ends, the two functions invert each other; extend_span moves an end exactly when
@@ -821,6 +862,9 @@ def oracle_spans(ctx: Ctx, lines):
             continue
         if ws[0] == "pfu":
             oracle_pfu(ctx, line, ws)
+            continue
+        if ws[0] == "dir":
+            oracle_direction(ctx, line, ws)
             continue
         if ws[0] in ("sfs", "sfl", "ext"):
             oracle_frames(ctx, line, ws)
@@ -1003,7 +1047,7 @@ def search(ctx: Ctx, seeds):
     ctx.tier = "quick"   # bounded: quick enumeration without thinning (~1 min)
     oracle_calendar(ctx, budget_scale=10)
     oracle_arith(ctx, gen_cmp_lines(ctx))
-    oracle_spans(ctx, gen_span_lines(ctx) + [c for c in seeds if isinstance(c, str) and (c.startswith("span") or c.startswith("enc") or c.startswith("pfu") or c.startswith("speq") or c.startswith("sfs") or c.startswith("sfl") or c.startswith("ext "))])
+    oracle_spans(ctx, gen_span_lines(ctx) + [c for c in seeds if isinstance(c, str) and (c.startswith("span") or c.startswith("enc") or c.startswith("pfu") or c.startswith("speq") or c.startswith("sfs") or c.startswith("sfl") or c.startswith("ext ") or c.startswith("dir "))])
 
 
 def replay(ctx: Ctx, payload):
